@@ -15,6 +15,7 @@ package main
 // machine-shared ones.
 
 import (
+	"fmt"
 	"go/ast"
 	"go/token"
 	"strings"
@@ -22,6 +23,7 @@ import (
 
 func c06r7(c *RC) {
 	pr := c.P
+	c06writeCombinerEnds(c)
 	fn := c.MustFn("exec.(*worker).runCombine")
 	if fn == nil {
 		return
@@ -129,4 +131,214 @@ func c06r7(c *RC) {
 		"when a task with its own combine buffers fails after part of its input was combined, the buffers stay in the worker (state idle) and a retry of the task on the same worker combines into them again: the run succeeds with values that count the first attempt's rows twice")
 	c.Check(cov.shared, fq+"|failed-attempt-leaves-no-residue:machine-buffer", pos,
 		"when a task that combines into a machine-shared buffer fails after part of its input was combined, its contribution stays in the shared buffer and a retry adds it again: the run succeeds with values that count those rows twice (the option's documentation says only that error recovery is not implemented)")
+}
+
+// c06writeCombinerEnds (part of C06-R7): writeCombiner leaves the combine key
+// in a terminal state and wakes the waiters.  CommitCombiner waits on the
+// worker's condition while the key is combinerWriting; if the writer returned
+// with the key still in that state, or without a broadcast, every task that
+// depends on the combined output waits forever.
+func c06writeCombinerEnds(c *RC) {
+	pr := c.P
+	fn := c.MustFn("exec.(*worker).writeCombiner")
+	if fn == nil {
+		return
+	}
+	fq := fn.QName()
+	fl := pr.Flow(fn)
+	isStateSet := func(n ast.Node, vals ...string) bool {
+		a, ok := n.(*ast.AssignStmt)
+		if !ok || len(a.Lhs) != 1 || len(a.Rhs) != 1 {
+			return false
+		}
+		ix, ok := a.Lhs[0].(*ast.IndexExpr)
+		if !ok {
+			return false
+		}
+		sel, ok := ix.X.(*ast.SelectorExpr)
+		if !ok || pr.fieldQName(fn.Pkg.FieldOf(sel)) != "exec.worker.combinerStates" {
+			return false
+		}
+		for _, v := range vals {
+			if expr(a.Rhs[0]) == v {
+				return true
+			}
+		}
+		return false
+	}
+	okState, okWake, nex := true, true, 0
+	var trail []string
+	fl.Walk(fl.Entry(), "", nil, Visitor{NoFacts: true,
+		Node: func(n ast.Node, x string, s *Step) (string, bool) {
+			if isStateSet(n, "combinerCommitted", "combinerError") {
+				x = "T"
+			}
+			for _, k := range callsIn(n) {
+				if strings.HasSuffix(fn.Pkg.CalleeName(k), ".Broadcast") && strings.HasPrefix(x, "T") {
+					x = "TB"
+				}
+			}
+			return x, false
+		},
+		Exit: func(kind ExitKind, ret *ast.ReturnStmt, x string, s *Step) {
+			if kind == ExitPanic {
+				return
+			}
+			nex++
+			if !strings.HasPrefix(x, "T") {
+				okState = false
+				trail = s.Trail()
+			}
+			if x != "TB" {
+				okWake = false
+			}
+		}})
+	c.Check(okState && nex > 0, fq+"|leaves-a-terminal-combiner-state", pr.Pos(fn.Body.Pos()),
+		"writeCombiner can return with the combine key neither committed nor in error: CommitCombiner keeps waiting for the writer, and every task that needs the combined output hangs", trail...)
+	c.Check(okWake && nex > 0, fq+"|wakes-the-waiters", pr.Pos(fn.Body.Pos()),
+		"writeCombiner does not broadcast on the worker's condition after setting the final state: CommitCombiner calls already waiting never wake up")
+	// the error is kept for later callers
+	keeps := false
+	ast.Inspect(fn.Body, func(n ast.Node) bool {
+		if a, ok := n.(*ast.AssignStmt); ok && len(a.Lhs) == 1 {
+			if ix, ok := a.Lhs[0].(*ast.IndexExpr); ok {
+				if sel, ok := ix.X.(*ast.SelectorExpr); ok && pr.fieldQName(fn.Pkg.FieldOf(sel)) == "exec.worker.combinerErrors" {
+					keeps = true
+				}
+			}
+		}
+		return true
+	})
+	c.Check(keeps, fq+"|keeps-the-cause", pr.Pos(fn.Body.Pos()), "the error that made the combiner unwritable is no longer kept: later tasks fail with a nil cause (and a panic message in the user's combine function is lost)")
+}
+
+// c06userErrorsStayFatal (part of C06-R3): on the worker, an error that comes
+// out of the task's own pipeline (a Read on what task.Do returned: user
+// readers, writers, map functions) is handed on wrapped as maybeTaskFatalErr.
+// Worker.Run downgrades every other fatal error to a retryable one
+// (reviseSeverity), so an unwrapped user error is retried as a lost task five
+// times — with its side effects — and the run ends with "lost on 5
+// consecutive attempts" instead of the user's message.
+func c06userErrorsStayFatal(c *RC) {
+	pr := c.P
+	n := 0
+	for _, q := range []string{"exec.(*worker).Run", "exec.(*worker).runCombine"} {
+		fn := c.MustFn(q)
+		if fn == nil {
+			continue
+		}
+		// variables holding the pipeline's reader: assigned from <task>.Do(...), or the
+		// parameter that runCombine receives it in (type sliceio.Reader)
+		pipe := map[string]bool{}
+		inspectNoLit(fn.Body, func(nd ast.Node) bool {
+			if a, ok := nd.(*ast.AssignStmt); ok && len(a.Lhs) == 1 && len(a.Rhs) == 1 {
+				if k, ok := a.Rhs[0].(*ast.CallExpr); ok {
+					if sel, ok := k.Fun.(*ast.SelectorExpr); ok && pr.fieldQName(fn.Pkg.FieldOf(sel)) == "exec.Task.Do" {
+						pipe[expr(a.Lhs[0])] = true
+					}
+				}
+			}
+			return true
+		})
+		if q == "exec.(*worker).runCombine" && fn.Type.Params != nil {
+			for _, f := range fn.Type.Params.List {
+				if tv := fn.Pkg.Info.Types[f.Type]; tv.Type != nil && typeString(tv.Type) == "sliceio.Reader" {
+					for _, nm := range f.Names {
+						pipe[nm.Name] = true
+					}
+				}
+			}
+		}
+		ord := 0
+		inspectNoLit(fn.Body, func(nd ast.Node) bool {
+			var read *ast.CallExpr
+			var errV string
+			var body *ast.BlockStmt
+			switch x := nd.(type) {
+			case *ast.IfStmt:
+				if as, ok := x.Init.(*ast.AssignStmt); ok && len(as.Rhs) == 1 && len(as.Lhs) == 2 {
+					if k, ok := as.Rhs[0].(*ast.CallExpr); ok {
+						read, errV, body = k, expr(as.Lhs[1]), x.Body
+					}
+				}
+			case *ast.BlockStmt, *ast.CaseClause:
+				var list []ast.Stmt
+				if b, ok := x.(*ast.BlockStmt); ok {
+					list = b.List
+				} else {
+					list = x.(*ast.CaseClause).Body
+				}
+				for i, st := range list {
+					as, ok := st.(*ast.AssignStmt)
+					if !ok || len(as.Rhs) != 1 || len(as.Lhs) != 2 {
+						continue
+					}
+					k, ok := as.Rhs[0].(*ast.CallExpr)
+					if !ok {
+						continue
+					}
+					sel, ok := k.Fun.(*ast.SelectorExpr)
+					if !ok || sel.Sel.Name != "Read" || !pipe[expr(sel.X)] {
+						continue
+					}
+					if i+1 < len(list) {
+						if ifs, ok := list[i+1].(*ast.IfStmt); ok {
+							ord++
+							n++
+							c06checkWrapped(c, fn, ord, expr(as.Lhs[1]), ifs.Body, k)
+						}
+					}
+				}
+				return true
+			}
+			if read != nil {
+				sel, ok := read.Fun.(*ast.SelectorExpr)
+				if ok && sel.Sel.Name == "Read" && pipe[expr(sel.X)] {
+					ord++
+					n++
+					c06checkWrapped(c, fn, ord, errV, body, read)
+				}
+			}
+			return true
+		})
+	}
+	c.Floor("reads of the task's own pipeline on the worker", n, 3)
+}
+
+func c06checkWrapped(c *RC, fn *Func, ord int, errV string, body *ast.BlockStmt, read *ast.CallExpr) {
+	pr := c.P
+	ok, any := true, false
+	ast.Inspect(body, func(m ast.Node) bool {
+		r, isR := m.(*ast.ReturnStmt)
+		if !isR || len(r.Results) == 0 {
+			return true
+		}
+		res := r.Results[len(r.Results)-1]
+		if expr(res) == "nil" {
+			return true
+		}
+		any = true
+		cl, isCl := ast.Unparen(res).(*ast.CompositeLit)
+		if !isCl {
+			ok = false
+			return true
+		}
+		if tv := fn.Pkg.Info.Types[cl]; tv.Type == nil || typeString(tv.Type) != "exec.maybeTaskFatalErr" {
+			ok = false
+			return true
+		}
+		mentions := false
+		ast.Inspect(cl, func(q ast.Node) bool {
+			if id, isId := q.(*ast.Ident); isId && id.Name == errV {
+				mentions = true
+			}
+			return true
+		})
+		if !mentions {
+			ok = false
+		}
+		return true
+	})
+	c.Check(ok && any, fmt.Sprintf("%s|pipeline-read#%d-error-stays-task-fatal", fn.QName(), ord), pr.Pos(read.Pos()),
+		"an error from reading the task's own pipeline is returned without the maybeTaskFatalErr wrapper: Worker.Run then downgrades a persistent user error to a retryable one, the shard (with the user's side effects) is re-run until it has been lost five times, and the run ends without the user's message")
 }
